@@ -125,10 +125,10 @@ package utils
 //@ property C04 C08
 //@ ghost ebase(ref) int const
 //@ spec func exAvail0(e *exactReader) int = rend(e.r) - ebase(e)
-//@ spec func exInv(e *exactReader) bool = e != nil && e.r != nil && rwf(e.r) && lsrc(e) == e.r && ebase(e) >= 0 && 0 <= rpos(e) && rpos(e) <= rend(e) && rpos(e.r) == ebase(e) + rpos(e) && rend(e) == ite(llim(e) <= 0, 0, min(llim(e), exAvail0(e))) && rbad(e) == (llim(e) > 0 && exAvail0(e) < llim(e)) && e.n == ite(llim(e) <= 0, llim(e), llim(e) - rpos(e)) && llim(e) <= 1<<48
+//@ spec func exInv(e *exactReader) bool = e != nil && e.r != nil && rwf(e.r) && lsrc(e) == e.r && ebase(e) >= 0 && 0 <= rpos(e) && rpos(e) <= rend(e) && rpos(e.r) == ebase(e) + rpos(e) && rend(e) == ite(llim(e) <= 0, 0, min(llim(e), exAvail0(e))) && rbad(e) == (llim(e) > 0 && exAvail0(e) < llim(e)) && e.n == ite(llim(e) <= 0, llim(e), llim(e) - rpos(e))
 //@ spec func exData(e *exactReader) bool = forall(i, 0, rend(e), rdata(e)[i] == rdata(e.r)[ebase(e) + i])
 //@ func ExactReader
-//@   requires r != nil && rwf(r) && n <= 1<<48
+//@   requires r != nil && rwf(r)
 //@   ensures shape: is(result, *exactReader) && fresh(as(result, *exactReader)) && as(result, *exactReader) != nil && as(result, *exactReader).r == r && as(result, *exactReader).n == n
 //@   ensures_assumed stream_definition: lsrc(result) == r && lsrc_t(result) == typeof(r) && llim(result) == n && ebase(result) == rpos(r) && rpos(result) == 0 && rend(result) == ite(n <= 0, 0, min(n, ravail(r))) && rbad(result) == (n > 0 && ravail(r) < n)
 //@   ensures_assumed stream_data: forall(i, 0, rend(result), rdata(result)[i] == rdata(r)[rpos(r) + i])
